@@ -139,25 +139,29 @@ P = {
        "skips the window area.",
   ref="DESIGN.md section 5 C16, section 0"),
  "C04": dict(
-  text="36 Lean theorems about the executable byte-level model of String/StringWithSign/Comma/CommaWithSign/FromString/"
-       "Unmarshal*/Unquote/integer As and CheckedAs of f64.Int and f128.Int: toString_exact and toString_canonical, "
-       "fromString_toString for every raw value incl. Min (through the wrap-around) and every configuration of the regenerated "
-       "table, comma and with-sign forms parse back, fromString_literal (every plain literal with at least one digit whose "
-       "truncated value is representable gives that value truncated to D places), fromString_total (no panic on any byte "
-       "string), checkedAs_int_iff and as_eq_checkedAs; the dispatch (the float detour of FromString is taken iff the text contains e/E: "
-       "fromString_exp_iff(128), literal_never_float_path, renderings_never_float_path); float-target CheckedAs reduced to a "
-       "named contract of strconv.ParseFloat/FormatFloat (checkedAs_float_iff64, checkedAs_float_sound128, "
-       "checkedAs_float_iff128 under quo_nearest, as_eq_checkedAs_float). ~275k lines per quick run over all 16 configurations "
-       "of both types.",
-  note="float-target CheckedAs: the theorems take strconv's contract (ParseFloat correctly rounded, FormatFloat(-1) shortest "
-       "round trip) and, for f128 completeness, the big.Float quotient being the nearest float as NAMED HYPOTHESES; the clause "
-       "is additionally judged end to end by an implementation-side oracle built from big.Rat and strconv (two-sided: succeeds "
-       "iff the nearest float's shortest decimal is the number's own text); exponent literals are not plain literals (Appendix "
-       "B) and stay outside the model (exp oracle: no panic, FromString = From(ParseFloat), entry points agree); "
-       "encoding/json and yaml.v3 round trips are an identity oracle; literals whose value is not representable wrap (f64) or "
-       "saturate (f128) and are compared model-vs-code only (reading, Appendix B); f64 CheckedAs to unsigned targets accepts "
-       "negative whole numbers because converting back yields the original (transcribed, not alarmed).",
-  ref="DESIGN.md section 5 C04"),
+  text="55 Lean theorems about the executable byte-level model of String/StringWithSign/Comma/CommaWithSign/FromString (plain "
+       "branch)/Unmarshal*/txt.CommaFromStringNum/txt.Comma of integers/txt.Unquote/integer As and CheckedAs of f64.Int and "
+       "f128.Int, and of float As/CheckedAs at the instance GoSem.F64 (Model/FixedTextFloat.lean: ParseFloat as correctly rounded "
+       "conversion of the denoted rational, FormatFloat(-1) as a search for the first text by digit count that parses back): "
+       "toString_exact and toString_canonical, fromString_toString for every raw value incl. Min and every configuration of the "
+       "regenerated table, comma and with-sign forms parse back, fromString_literal (every plain literal whose truncated value "
+       "is representable gives that value truncated to D places), fromString_total (range of every parse result), the dispatch "
+       "(the float detour is taken iff the text contains e/E: fromString_exp_iff(128), literal_never_float_path, "
+       "renderings_never_float_path), integer CheckedAs in closed form (checkedAs_signed_iff64, checkedAs_narrow_unsigned_iff64, "
+       "checkedAs_u64_iff64, checkedAs_all_iff128, and the f64/f128 difference on uint64 as a theorem pair), as_int_same_as_C03, "
+       "float CheckedAs at the executed instance (parseFloat_toString, formatFloat_roundtrip, checkedAs_float_go64: f64 CheckedAs "
+       "returns x iff x is the nearest float and its shortest text is the number's own text; checkedAs_float_go128_sound). ~313k "
+       "lines per quick run over all 16 configurations of both types, incl. a stream fltm comparing float As/CheckedAs bit for "
+       "bit with the code and the two Lean definitions with strconv.ParseFloat/FormatFloat themselves.",
+  note="float CheckedAs: minimality of the formatFloatGo text (no shorter text parses back) and nearest-ness of ofRat are not "
+       "proved; they are tied to strconv by the pf/ff streams; four earlier theorems over uninterpreted stdlib functions are "
+       "schematic and do not carry the clause; f128 completeness is not proved (soundness only); a big.Rat oracle (float) stays "
+       "as a second opinion; exponent literals are not plain literals (Appendix B) and stay outside the model (exp oracle: no "
+       "panic, FromString = From(ParseFloat), entry points agree); encoding/json and yaml.v3 round trips are an identity oracle; "
+       "literals whose value is not representable wrap (f64) or saturate (f128) and are compared model-vs-code only (reading, "
+       "Appendix B); f64 CheckedAs to uint64 kinds accepts negative whole numbers because converting back yields the original "
+       "(now a theorem: checkedAs_u64_f64_vs_f128).",
+  ref="DESIGN.md section 5 C04, section 0"),
  "C05": dict(
   text="Translation validation: the clipper is not modelled; every individual call of the real Union/Intersect/Sub/Xor (float32 "
        "and float64) is judged by an executable Lean even-odd oracle in exact dyadic arithmetic whose soundness is proved "
